@@ -313,11 +313,27 @@ class Bicomplex(object):
         return self.log() / np.log(2)
 
     def log1p(self):
-        return Bicomplex(np.log1p(self.mod_c()), self.arg_c1p())
+        z1, z2 = self.z1, self.z2
+        # log(mod_c(1 + z)) = 0.5 * log(1 + w) where w = 2 * z1 + z1**2 + z2**2
+        with np.errstate(over='ignore', invalid='ignore'):
+            w = 2 * z1 + z1 * z1 + z2 * z2
+            log_mod_c = (0.25 * np.log1p(2 * w.real + w.real ** 2 + w.imag ** 2)
+                         + 0.5j * np.arctan2(w.imag, 1 + w.real))
+        # 1 + w cancels when 1 + z1 is small (but then 1 + z1 is exact) and w**2 overflows
+        # for huge z1 (but then log1p(z) = log(1 + z) to full accuracy)
+        direct = (z1.real < -0.5) | (np.abs(z1) > 1e3)
+        log_mod_c = np.where(direct, np.log(Bicomplex(1 + z1, z2).mod_c() + _TINY), log_mod_c)
+        return Bicomplex(log_mod_c, self.arg_c1p())
 
     def expm1(self):
-        expz1 = np.expm1(self.z1)
-        return Bicomplex(expz1 * np.cos(self.z2), expz1 * np.sin(self.z2))
+        z1, z2 = self.z1, self.z2
+        expz1, cosz2 = np.exp(z1), np.cos(z2)
+        # exp(z1) * cos(z2) - 1 = expm1(z1) * cos(z2) - 2 * sin(z2 / 2)**2 is accurate for
+        # small z, but cancels when cos(z2) is large
+        first = np.where(np.abs(z2) < 1,
+                         np.expm1(z1) * cosz2 - 2 * np.sin(0.5 * z2) ** 2,
+                         expz1 * cosz2 - 1)
+        return Bicomplex(first, expz1 * np.sin(z2))
 
     def exp(self):
         expz1 = np.exp(self.z1)
